@@ -1,1 +1,24 @@
-fn main() {}
+//! C12 — blocking-style and poll-style adapters are lossless FIFO pipes (DESIGN.md §3 C12).
+use iolib::c12;
+use vcore::{Part, Session};
+
+mod regress;
+
+fn main() {
+    let mut s = Session::new();
+    // `c12 --from-bytes <libFuzzer artifact>`: convert to a JSON replay file and run it
+    if let Some(bytes) = iolib::fuzz::from_bytes_arg(&s.args.rest) {
+        let case = iolib::arb::adapter_case(&mut arbitrary::Unstructured::new(&bytes)).expect("decoding never fails");
+        let path = iolib::fuzz::write_replay(&s.args.verif_dir, "C12", "adapters", &case);
+        eprintln!("replay file: {}", path.display());
+        s.args.replay = Some(path);
+    }
+    let mut p = Part::new("C12", "adapters", regress::RULE);
+    p.quick_cases = 60_000;
+    p.thorough_cases = 3_000_000;
+    p.threads = 6;
+    p.assumptions = regress::assumptions();
+    p.regressions = regress::cases();
+    s.run_part(p, c12::case_strategy(), c12::run_adapter);
+    s.finish();
+}
